@@ -519,7 +519,7 @@ func (self *MerkleVerifier) VerifyConsistency(old_tree_size,
 	if old_size > new_size {
 		return errors.New(fmt.Sprintf("Older tree has bigger size %d vs %d", old_size, new_size))
 	}
-	if old_root == new_root {
+	if old_size == new_size && old_root == new_root {
 		return nil
 	}
 	if old_size == 0 {
